@@ -3,6 +3,7 @@
 Decided: R08.1 argument rejection precedes any state change; R08.2 every success return of the page seek passes the
 result verification; R08.3 failure exits dump the decoder and the position; R08.4 target conversion is frame- and
 link-consistent (K7, rules/frames.py).  Not decided: reachability and landing precision."""
+import absint
 import cfg
 import k2
 import k3
@@ -381,6 +382,20 @@ def r08_11(chk, P):
             for rate, other in ((a, b), (b, a)):
                 if not is_link_rate(rate):
                     continue
+                # the time factor must still be a floating value when it meets the rate: a conversion to an integer type first
+                # drops the fraction of a second (up to `rate` samples)
+                on = F.ex[other]
+                trunc = False
+                while on['k'] == 'cast':
+                    inner = F.ex[on['c'][0]]
+                    if absint.int_type_range(on.get('t', '')) and (inner.get('t', '') in ('double', 'float')):
+                        trunc = True
+                    on = inner
+                n += 1
+                chk.ob('R08.11', F.name, f'time-keeps-its-fraction@{F.loc(e)}', not trunc, F.where(e),
+                       f'`{F.s(e)[:70]}`: the time factor is floating when it is multiplied' if not trunc else
+                       f'`{F.s(e)[:70]}`: the time is converted to an integer before it is multiplied by the rate: the fraction of a '
+                       'second is lost and the seek lands up to one second early')
                 bad = is_abs_time(other)
                 n += 1
                 chk.ob('R08.11', F.name, f'time-to-samples-is-link-relative@{F.loc(e)}', not bad, F.where(e),
